@@ -1270,8 +1270,9 @@ class Index:
             sha1_reader = SHA1Reader(f)
             entries, version, extensions = read_index_dict_with_version(sha1_reader)
             self._version = version
-            self._extensions = extensions
             self.update(entries)
+            # (after update(): changing entries forgets the cached extensions)
+            self._extensions = extensions
             # Extensions have already been read by read_index_dict_with_version
             sha1_reader.check_sha(allow_empty=True)
         finally:
@@ -1330,8 +1331,27 @@ class Index:
                 return True
         return False
 
+    def _forget_derived_extensions(self) -> None:
+        """Forget extensions that cache facts derived from the entries.
+
+        The untracked cache (``UNTR``) and optional extensions dulwich does not
+        know (``EOIE``, ``IEOT``, ``FSMN``, ...) describe the entries they were
+        written with. dulwich does not maintain them, so once an entry changes
+        they must not be written back: git would trust the stale untracked
+        cache and, for example, not report a file as untracked after its
+        entry was removed. Without them git simply recomputes.
+        """
+        if self._extensions:
+            self._extensions = [
+                ext
+                for ext in self._extensions
+                if type(ext) is not IndexExtension
+                and not isinstance(ext, UntrackedExtension)
+            ]
+
     def clear(self) -> None:
         """Remove all contents from this index."""
+        self._forget_derived_extensions()
         self._byname = {}
         if self._normalized is not None:
             self._normalized = {}
@@ -1343,6 +1363,7 @@ class Index:
         assert isinstance(name, bytes)
         name = self.canonical_path(name)
         is_new = name not in self._byname
+        self._forget_derived_extensions()
         self._byname[name] = value
         if is_new and self._normalized is not None:
             assert self._path_normalizer is not None
@@ -1352,6 +1373,7 @@ class Index:
         """Delete an entry from the index."""
         name = self.canonical_path(name)
         del self._byname[name]
+        self._forget_derived_extensions()
         if self._normalized is not None:
             assert self._path_normalizer is not None
             normalized_key = self._path_normalizer(name)
